@@ -354,6 +354,10 @@ class Server(object):
             self.authed = True
 
     def _command_MAIL(self, arg):
+        if not arg:
+            bad_arguments.send(self.io)
+            return
+
         match = from_pattern.match(arg)
         if not match:
             bad_arguments.send(self.io)
@@ -400,6 +404,10 @@ class Server(object):
         self.have_mailfrom = self.have_mailfrom or (reply.code == '250')
 
     def _command_RCPT(self, arg):
+        if not arg:
+            bad_arguments.send(self.io)
+            return
+
         match = to_pattern.match(arg)
         if not match:
             bad_arguments.send(self.io)
